@@ -139,3 +139,16 @@ prop("C07",
      not_decided=["ThompsonEntropyDecoupledAcquisition (random, depends on the whole candidate array): DecoupledGP's 'maximiser' is relative to the values that call returned",
                   "optimize_decoupled_acqf_discrete's top-q merge (argpartition/argsort on symbolic values) is covered only by the bounded stand-in",
                   "q larger than the number of candidates (separate C06 obligation)"])
+
+prop("C15",
+     level_text="The wrappers' data bookkeeping is proved from the real bodies: add_sample appends (first input_dim columns, order kept), clear_data empties, update makes the inner exact GP condition on exactly the held samples (both the creation and the set_train_data branch), predict returns (N,m) means and (N,m,m) covariances that are the posterior at the queried points for every N >= 1 incl. N = 1, model-list routing per objective, shapes of reported hyper-parameters, the train-and-freeze helpers' final state. gpytorch is called by contract.",
+     mode="unrolled: d in {1,2}, m in {2,3}, held samples 0-3, N in {1,2,3}; values symbolic",
+     trusted_base=["z3 5.1.0", "A-GP: gpytorch returns the exact posterior of the data it was given, as a function of the data as a multiset; shapes as measured"],
+     not_decided=["the posterior arithmetic of gpytorch (exactness, non-negative / non-increasing variance): bounded numeric stand-in only",
+                  "agreement of reported hyper-parameters with the kernel beyond their shapes"])
+
+prop("C05",
+     level_text="Lemma over contracts: from the step contracts proved for the real discarding / epsiloncovering bodies of VOGP and eps-PAL (C02/C03), the meaning of the region predicates (C09/C10, instantiated at the true means) and the hypothesis that the truth stays inside the displayed regions, the two invariants (isolated designs stay active; members of P are not dominated by the slack or more by any active design) are preserved by every phase and give the property at S = empty.",
+     mode="lemma; sets, regions, predicate answers, true means arbitrary (meaning lemma: m in {2,3}, generic facet row)",
+     trusted_base=["z3 5.1.0", "induction over rounds (schema)", "H-valid (hypothesis of the property)", "run reaches S = empty (hypothesis)"],
+     not_decided=["validity of the regions (C04) and termination", "VOGP_AD is outside C05"])
